@@ -1561,7 +1561,10 @@ fn strat_str(bits: usize) -> BoxedStrategy<Case> {
         let s = match k {
             0 => base,
             1 => ins(&base, m.a >> 3, "_"),
-            2 => ins(&base, m.a >> 3, ["g", "z", "Z", " ", "-", "+", ".", "=", "\n", "/", ",", "\u{e9}", "\u{1f600}", "\u{0}"][(m.b % 14) as usize]),
+            // includes the code points whose Unicode case mappings or numeric values collide with
+            // ASCII digits and letters (Kelvin sign, dotted/dotless i, long s, full-width and
+            // Arabic-Indic digits)
+            2 => ins(&base, m.a >> 3, ["g", "z", "Z", " ", "-", "+", ".", "=", "\n", "/", ",", "\u{e9}", "\u{1f600}", "\u{0}", "\u{212a}", "\u{130}", "\u{131}", "\u{17f}", "\u{ff11}", "\u{661}", "\u{ff21}", "\u{ff41}"][(m.b % 22) as usize]),
             3 => {
                 // a digit equal to the radix / above it
                 let r = radix.clamp(2, 64);
